@@ -10,5 +10,6 @@ CONSTANTS
   WithAux = TRUE
   MinCalls = 6
   WithAsm = TRUE
+  WithRefusals = FALSE
 INVARIANTS WellFormedInv IndexExactInv ContentInv CrcInv StatsInv Export
 CHECK_DEADLOCK FALSE
